@@ -425,7 +425,8 @@ MUTANTS = [
     ('float-pop-32bit-zero', 'miasmx/arch/ia32_sem.py', "        if src is None: src = ExprInt64(0)", "        if src is None: src = ExprInt32(0)", 'C11.D3'),
     ('float-eip-opmode-width', 'miasmx/arch/ia32_sem.py', "    e.append(ExprAff(float_eip, ExprInt32(info.offset)))", "    e.append(ExprAff(float_eip, ExprInt(tab_mode[info.opmode](info.offset))))", 'C11.D3'),
     ('slice-rest-elif', 'miasmx/expression/expression.py', "    if start !=0:\n        rest.append((0, start))\n    if stop < size:", "    if start !=0:\n        rest.append((0, start))\n    elif stop < size:", 'C11.D5'),
-    ('aff-slice-unsorted', 'miasmx/expression/expression.py', "all_a = sorted([(src, dst.start, dst.stop)] + rest, key=lambda x:x[1])", "all_a = [(src, dst.start, dst.stop)] + rest", 'C11.D5'),
+    # ('aff-slice-unsorted' retired: a concatenation whose slots are listed out of order denotes the same bits - the lifted `mov ah, 0x7f` evaluates and simplifies alike
+    #  (checked on the real code); the old D5 demanded the order, the bit-by-bit comparison does not)
     ('movzx-slot', 'miasmx/arch/ia32_sem.py', "                                    (b, 0, b.get_size())]))]", "                                    (b, 8, b.get_size())]))]", 'C11.D3'),
     ('xchg-double', 'miasmx/arch/ia32_sem.py', "    return [ExprAff(a, va), ExprAff(b, vb)]\n\ndef xchg", "    return [ExprAff(a, va), ExprAff(a, vb)]\n\ndef xchg", 'C11.D4'),
     ('lea-unbound', 'miasmx/arch/ia32_sem.py', "    src = b.arg\n    if src.get_size() > a.get_size():", "    src = bb.arg\n    if src.get_size() > a.get_size():", 'C11.D1'),
@@ -445,5 +446,6 @@ MUTANTS = [
     ('into-shared-empty-list', 'miasmx/arch/ia32_sem.py', "def into(info):\n    return []\n", "no_effect = []\ndef into(info):\n    return no_effect\n", 'C11.D6'),
     ('mmx-scale-typed-by-admode', 'miasmx/arch/ia32_sem.py', "        int_cast = tab_afs_int[[x86_afs.u32, x86_afs.u16][admode == x86_afs.u16]]", "        int_cast = tab_afs_int[admode]", 'C11.D3'),
     ('aff-pair-unordered-slice', 'miasmx/arch/ia32_sem.py', "        return [ExprAff(ExprSlice(a.arg, lo.start, hi.stop),", "        return [ExprAff(ExprSlice(a.arg, a.start, b.stop),", 'C11.D3'),
-    ('cmpxchg-acc-dest-two-writes', 'miasmx/arch/ia32_sem.py', "    if a == c:\n", "    if False:\n", 'C11.D4'),
+    # ('cmpxchg-acc-dest-two-writes' retired: since aff_pair writes a register named twice once, with the value the processor writes last, removing the `a == c` shortcut
+    #  of cmpxchg leaves one assignment of the same value - an equivalent mutant)
 ]
